@@ -1,5 +1,6 @@
 """One function per property: builds the obligation list, runs it, writes evidence, returns the exit code."""
 import time
+import re
 from . import common, par
 from .common import Ob, finish
 
@@ -38,7 +39,10 @@ def _fl(jobs, ark_only=False):
     stands on instead of trusting another check to have done so"""
     from . import fields
     have = {j[0] for j in jobs}
-    extra = [(j[0] + ' [field layer]', j[1], j[2]) for j in fields.jobs_shared() if j[0] not in have and (not ark_only or j[0].startswith('ark') or j[0] == 'Fq::power')]
+    # decaf377 elements live over Fq (coordinates, encodings) and Fr (scalars); Fp is the base field of the BLS12-377 pairing engine only
+    # (C10, C11, C12 and C16 decide it) and is left out here
+    def is_fp(name): return bool(re.search(r'\bFp\b|\bfp\b', name))
+    extra = [(j[0] + ' [field layer]', j[1], j[2]) for j in fields.jobs_shared() if j[0] not in have and not is_fp(j[0]) and (not ark_only or j[0].startswith('ark') or j[0] == 'Fq::power')]
     return list(jobs) + extra
 
 def _warm():
